@@ -50,6 +50,8 @@ fn tokenize_direct(input: &str) -> LexResult {
 
     let mut it = input.chars().peekable();
     while let Some(c) = it.next() {
+        #[cfg(feature = "verif")]
+        crate::verif_hooks::bump(0);
         tokens.append(&mut into_tokens(c, &mut it, &mut state)?);
     }
     tokens.append(&mut state.flush_indents());
